@@ -6,7 +6,7 @@
    code points).  [cw] = str_util.get_char_width and [upper] = str.upper are parameters; the layout
    of the displayed text is DATA carried by each event (any layout whatsoever in the theorems of
    part 1, a layout row of a stated shape in part 2). *)
-From Coq Require Import ZArith List Bool.
+From Coq Require Import ZArith List Bool Lia.
 Import ListNotations.
 From Urwid Require Import PyBase Edit EditSpec EditProofs EditLayoutProofs.
 Open Scope Z_scope.
@@ -161,7 +161,7 @@ Print Assumptions cursor_cell.
 (* --- the view of a focused Edit keeps the cursor inside the w columns: shown at column x of row y
        by the layout => shown, and drawn, at column clamp(x, 0, w-1) of row y (any wrap mode) --- *)
 Theorem cursor_visible :
-  forall cw s w lay x y,
+  forall cw (upper : Z -> list Z) s w lay x y,
     1 <= w ->
     find_row cw (disp s) lay (pos s + zlen (caption s)) 0 = Some (x, y) ->
     find_row cw (disp s) (get_line_translation cw (look s) w lay) (pos s + zlen (caption s)) 0
@@ -220,16 +220,13 @@ Proof. exact row_end_text. Qed.
 Print Assumptions row_end_on_last_character.
 
 (* ===== what is NOT proved here (oracle / correspondence only) =====
-   - bytes mode and other encodings ("never inside a multi-byte character"): the statement below is
-     checked by the harness oracle on a separate bytes stream (utf-8, euc-jp, big5, latin-1). *)
-Definition pos_inv_bytes_full : Prop :=
-  forall (decode_ok : list Z -> bool) (text_bytes : list Z) (offset : Z),
-    (* for every reachable (text, offset) of a bytes-mode Edit: both halves decode *)
-    decode_ok (takez offset text_bytes) = true /\ decode_ok (dropz offset text_bytes) = true.
-(* - the drawn canvas: the cursor cell of the rendered canvas holds the character at the offset,
+   - bytes mode and other encodings ("never inside a multi-byte character"): there is no bytes model;
+     the harness oracle checks on a separate bytes stream (utf-8, euc-jp, big5, latin-1) that both
+     halves of the text around the offset decode and that text/offset follow the reference editor.
+   - the drawn canvas: the cursor cell of the rendered canvas holds the character at the offset,
      rows() == canvas rows, render never raises (oracle on every render event).
-   - that the layout data has the shape assumed in part 2 is C03's subject; the oracle builds its own
-     cell map from the layout structure and compares.
+   - that the layouts produced by StandardTextLayout have the shape assumed in part 2 is C03's subject;
+     the oracle builds its own cell map from each layout structure and compares.
    - highlight: not covered (never non-None through the modelled API; AST-scanned every run). *)
 
 (* ===== non-vacuity ===== *)
@@ -270,11 +267,9 @@ Proof.
   - left. reflexivity.
   - constructor.
   - reflexivity.
-  - split; [split|]; discriminate || (intro; discriminate) || idtac; cbv; intuition discriminate.
+  - lia.
   - intros i Hi.
-    assert (i = 0 \/ i = 1 \/ i = 2) as [->|[->|->]] by (destruct Hi as [A B]; clear -A B;
-      destruct i as [|q|q]; [auto| |exfalso; apply A; reflexivity];
-      destruct q as [q|q|]; [destruct q; try (exfalso; apply B; reflexivity)|destruct q; try (exfalso; apply B; reflexivity)|]; auto).
+    assert (i = 0 \/ i = 1 \/ i = 2) as [ -> | [ -> | -> ] ] by lia.
     + exists 97. split; [reflexivity|discriminate].
     + exists 19990. split; [reflexivity|discriminate].
     + exists 98. split; [reflexivity|discriminate].
